@@ -97,6 +97,16 @@ def gen_case(rng):
                  rng.choice([["f", rand_decimal(rng)]]
                             + [["p", p] for p in places if p[0] == "r"][:1]),
                  ["neg", ["p", rng.choice(narrow)]]]
+        intregs = [p for p in places if p[0] == "r" and not dsl.Spec(dict(
+            regs=regs, vars=vars_, locs=locs, stmts=[])).info(p)[2]]
+        if intregs and rng.random() < 0.1:
+            # a chain of literals on an integer register: first an integer,
+            # then a decimal (reg + 3 + 0.5)
+            t = ["b", rng.choice(["+", "-"]),
+                 ["b", rng.choice(["+", "-"]), ["p", rng.choice(intregs)],
+                  ["c", rng.choice([1, 2, 3, 10, 1000])]],
+                 ["f", rng.choice(["0.5", "1.5", "0.25", "2.75",
+                                   rand_decimal(rng)])]]
         if rng.random() < 0.12:
             # constants whose scaled value sits around the 32-bit immediate
             # boundaries (2^31 = 21474.83648, 2^32 = 42949.67296)
